@@ -57,4 +57,9 @@ def cells(tier):
         out.append(rcell(PID, N, k, T=60 if tier == 'quick' else 600, **kw))
     for op in ('roDelete', 'roReadyToAir'):
         out.append(icell(PID, op, N=2, T=60 if tier == 'quick' else 600))
+    if tier == 'thorough':
+        # one more size: five (and six) stories / items for the resolvable and k-th-unresolvable shapes
+        out += make_cells(PID, 'report', tier, N=5, thin=plain, suffix='N5')
+        out += make_cells(PID, 'report', tier, N=6, thin=lambda op, story_k, tk, sk, nk: plain(op, story_k, tk, sk, nk) and tk in (None, 'existing') and
+                          (sk is None or sk == ['existing', 'existing']), suffix='N6')
     return out
